@@ -54,7 +54,7 @@ for (ln, new, what) in muts:
         except SyntaxError:
             continue
         r = subprocess.run([os.path.join(VERIF, "verif"), "check", pid, "--tier", "quick"], cwd=VERIF, capture_output=True, text=True,
-                           env=dict(os.environ, VERIF_REPO=wt, VERIF_OUT=out, PYVC_RACE_MAX="0"))
+                           env=dict(os.environ, VERIF_REPO=wt, VERIF_OUT=out, PYVC_RACE_MAX="0"), timeout=1200)
         k = r.returncode == 1 and "VIOLATION" in r.stdout
         killed += k; survived += (not k)
         print("%s line %d: %-12s %s   | %s" % ("KILLED  " if k else "SURVIVED", ln, what, new.strip()[:90], "" if k else ("exit=%d " % r.returncode) + " ".join(l[:60] for l in r.stdout.split("\n") if l.startswith(("UNPROVED", "CHECKER")))[:160]), flush=True)
